@@ -139,7 +139,9 @@ func c13History(proto Protocol, queue int, maxPacket int32) {
 	r, addr := vNew(proto, queue, maxPacket, nil)
 	tags := map[string]string{"k": "v"}
 	c := r.AllocateCounter("c", tags)
-	g := r.AllocateGauge("g", nil)
+	// the empty string is a legal metric name and must travel like any other
+	gname := []string{"g", ""}[verifrt.Choose("gauge-name", 2)]
+	g := r.AllocateGauge(gname, nil)
 	tm := r.AllocateTimer("t", map[string]string{"a": "1", "b": "2"})
 	hv := r.AllocateHistogram("hv", tags, tally.ValueBuckets{1, 2})
 	hd := r.AllocateHistogram("hd", nil, tally.DurationBuckets{time.Second, 2 * time.Second})
@@ -167,7 +169,7 @@ func c13History(proto Protocol, queue int, maxPacket int32) {
 	add(&vExpect{name: "c", kind: m3thrift.MetricType_COUNTER, count: x, tags: tags}, func() { c.ReportCount(x) })
 	maybeFlush("1")
 	f := verifrt.Float64("gauge")
-	add(&vExpect{name: "g", kind: m3thrift.MetricType_GAUGE, gauge: math.Float64bits(f), tags: map[string]string{}}, func() { g.ReportGauge(f) })
+	add(&vExpect{name: gname, kind: m3thrift.MetricType_GAUGE, gauge: math.Float64bits(f), tags: map[string]string{}}, func() { g.ReportGauge(f) })
 	d := verifrt.Int64("timer")
 	small(d)
 	add(&vExpect{name: "t", kind: m3thrift.MetricType_TIMER, timer: d, tags: map[string]string{"a": "1", "b": "2"}}, func() { tm.ReportTimer(time.Duration(d)) })
